@@ -27,6 +27,8 @@ GRAPHS = [
     ("path+isolated", 4, [(0, 1), (1, 2)], 2),
     ("parallel-edges", 2, [(0, 1), (0, 1)], 2),
     ("parallel-reversed", 2, [(0, 1), (1, 0)], 2),
+    ("parallel-interleaved", 3, [(0, 1), (2, 1), (0, 1)], 3),
+    ("parallel-interleaved-reversed", 3, [(0, 1), (0, 2), (1, 0)], 3),
     ("self-loop", 2, [(0, 0), (0, 1)], 2),
     ("unit-weights", 4, [(0, 1), (1, 2), (2, 3), (0, 2)], None),
     ("square+chord", 4, [(0, 1), (1, 2), (2, 3), (3, 0), (0, 2)], None),
